@@ -417,9 +417,16 @@ def flatnonzero_facts(mask):
     c.assume(Forall(lambda t: Implies(in_range(t, m), And(in_range(pos(t), n), B(fm(pos(t))), rank(pos(t)) == t,
                                                           Implies(t + 1 < m, pos(t) < pos(t + 1)))),
                     triggers=[pos], name="flatnonzero.pos"))
-    # every true position p has a rank in [0, m) with pos(rank(p)) = p
-    c.assume(Forall(lambda p: Implies(And(in_range(p, n), B(fm(p))), And(in_range(rank(p), m), pos(rank(p)) == p)),
-                    triggers=[rank], name="flatnonzero.rank"))
+    # every true position p has a rank in [0, m) with pos(rank(p)) = p   (instantiated at rank-occurrences, at the goal's
+    # skolem constants and at every index-valued Skolem term of the query)
+    sch = Forall(lambda p: Implies(And(in_range(p, n), B(fm(p))), And(in_range(rank(p), m), pos(rank(p)) == p)),
+                 triggers=[rank], name="flatnonzero.rank")
+    sch.at_index_terms = True
+    c.assume(sch)
+    c.index_funcs.append(rank)
+    # engine lemma L2/L4: strictly increasing adjacent => monotone
+    from .core import PairForall
+    c.assume(PairForall(pos, lambda a, b: Implies(And(in_range(a, m), in_range(b, m), a <= b), pos(a) <= pos(b)), name="flatnonzero.pos monotone"))
     return pos, m
 
 
